@@ -409,7 +409,13 @@ func c14SaveStorm(rep *verifkit.Report, in *sysInst, ls *sysListServer, rng *ran
 				} else {
 					// Cut once: a second request for the same URL (a retry,
 					// or the next refresh) gets the complete body.
-					ls.SetCutOnce(path, content, 100+rng.Intn(len(content)-150))
+					if r%4 == 1 {
+						ls.SetCutOnce(path, content, 100+rng.Intn(len(content)-150))
+					} else {
+						// ... and the list has been republished meanwhile.
+						ls.SetCutOnceThen(path, content, 100+rng.Intn(len(content)-150), c14FilterContent(r*10+li+5000, size))
+						rep.Class("cut_then_republished_transfers_offered")
+					}
 					rep.Class("cut_then_complete_transfers_offered")
 				}
 			} else {
